@@ -396,7 +396,38 @@ func Check10Strings(c Case10s, r *core.Rec) {
 	}
 	if msg := namedSetsChangedSince(baseline); msg != "" {
 		r.Failf("encoding / decoding %s with a derived set: %s", quote(s), msg)
+		return
 	}
+	// the same law observed at a parsed component that has an encoder of its own (url/hostparser.go):
+	// a lax-host parser "returns the host as is" when its percent-decoding is not UTF-8, escaping what
+	// a host cannot hold — so decoding what it returns gives the bytes that decoding the host text as
+	// written gives ('%' is not in that set). ASCII letter case is not compared.
+	h := strings.Map(func(ch rune) rune {
+		if strings.ContainsRune("/\\?#@:[]\t\n\r", ch) {
+			return -1
+		}
+		return ch
+	}, scalar)
+	if h != "" && !utf8.ValidString(Dec(h)) {
+		if u, err := laxHostParser.Parse("http://" + h + "/x"); err == nil && u != nil {
+			r.Class("law:lax-host-decode-commutes")
+			if got, want := Dec(u.Hostname()), Dec(h); asciiLower(got) != asciiLower(want) {
+				r.Failf("lax host parsing: the host %s is returned as %s, which decodes to %s; the host as written decodes to %s", quote(h), quote(u.Hostname()), quote(got), quote(want))
+			}
+		}
+	}
+}
+
+var laxHostParser = url.NewParser(url.WithLaxHostParsing())
+
+func asciiLower(s string) string {
+	b := []byte(s)
+	for i, c := range b {
+		if c >= 'A' && c <= 'Z' {
+			b[i] = c + 32
+		}
+	}
+	return string(b)
 }
 
 func hasValidEscape(s string) bool {
@@ -450,7 +481,7 @@ func Gen10s(t *rapid.T) Case10s {
 var P10s = core.Register(core.Prop[Case10s]{
 	ID: "C10.strings",
 	Rule: "strings (ASCII-heavy atoms with '%', valid / truncated / non-hex escapes, every set-edge character, non-ASCII, invalid UTF-8; a fifth arbitrary) x sets (named, named + '%', or derived by a random program); " +
-		"oracle: PercentEncodeString equals the model encoding (members -> uppercase %XX of the UTF-8 bytes, everything else untouched); no member left unescaped and idempotent (sets without '%' and hex digits); DecodePercentEncoded equals the standard's percent-decode and is the identity without a valid escape; '%' in the set => decode inverts encode; '%' (and hex digits) not in the set => decode(encode(s)) = decode(s); invalid bytes compared modulo the U+FFFD substitution the API performs; " +
+		"oracle: PercentEncodeString equals the model encoding (members -> uppercase %XX of the UTF-8 bytes, everything else untouched); no member left unescaped and idempotent (sets without '%' and hex digits); DecodePercentEncoded equals the standard's percent-decode and is the identity without a valid escape; '%' in the set => decode inverts encode; '%' (and hex digits) not in the set => decode(encode(s)) = decode(s); invalid bytes compared modulo the U+FFFD substitution the API performs; the last law is also observed at a parsed component with an encoder of its own: a lax-host parser's Hostname() for a host whose decoding is not UTF-8 decodes to what the host as written decodes to (ASCII case aside); " +
 		"non-trivial = the string contains a member, a non-member and a '%'; distinct by hash of (string, set recipe)",
 	Gen:   Gen10s,
 	Check: Check10Strings,
